@@ -191,6 +191,13 @@ def g6_short_pl_lengths(ctx):
         and d2.get("number_tied = number_to_sample - len(non_zero_cands)") == short and d2.get("number_tied = None") == set()
     order = [astx.u(s) for s in astx.walk_own(f.node) if isinstance(s, ast.Assign) and astx.u(s.targets[0]) in ("number_tied", "number_to_sample") and astx.u(s.value) != "None"]
     good = good and order == ["number_to_sample = self.ballot_length", "number_tied = number_to_sample - len(non_zero_cands)", "number_to_sample = len(non_zero_cands)"]
+    # the length that generate_profile reads is the one the caller asked for: the constructor stores its argument as it is
+    init = prog.find_func("short_name_PlackettLuce.__init__")
+    st = [n for n in astx.walk_own(init.node) if isinstance(n, ast.Assign) and any(astx.u(t) == "self.ballot_length" for t in n.targets)]
+    rebound = [n for n in astx.walk_own(init.node) if isinstance(n, ast.Name) and n.id == "ballot_length" and isinstance(n.ctx, (ast.Store, ast.Del))]
+    ok_len = "ballot_length" in init.params and len(st) == 1 and astx.is_name(st[0].value, "ballot_length") and not rebound
+    ctx.check(ok_len, init, st[0] if st else init.node, "short PL: self.ballot_length is the requested ballot_length, unchanged", "",
+              "the stored ballot length is not the constructor's argument as given (" + (f"`{astx.u(st[0])[:70]}`" if st else "no single store") + ")")
     ctx.check_shape(good, f, f.node, "short PL: sample min(ballot_length, #supported) candidates, the remaining positions are one zero-support tie", str(order),
               f"length bookkeeping is {order} under {d1} / {d2}")
 
@@ -442,7 +449,7 @@ def g5_no_cross_bloc_state(ctx):
 RULES = [
     ("C14.G1", g1_apportionment, 11, "8 apportionment calls agree: Huntington-Hill of number_of_ballots, keys aligned with proportions; crossover shares"),
     ("C14.G2", g2_draw_table, 8, "draw table: rankings without replacement / full size, cumulative with replacement / num_votes; short-PL lengths"),
-    ("C14.G6", g6_short_pl_lengths, 1, "short PL: sample min(ballot_length, #supported) candidates, the rest of the length is one zero-support tie"),
+    ("C14.G6", g6_short_pl_lengths, 2, "short PL: sample min(ballot_length, #supported) candidates, the rest of the length is one zero-support tie"),
     ("C14.G3", g3_shape, 20, "ballot shape: singleton positions, zero-support tail, unit weights / counts, pool size = apportioned count"),
     ("C14.G5", g5_no_cross_bloc_state, 10, "no mutable state is carried across blocs; zero-support candidates survive interval combination"),
     ("C14.G4", g4_aggregation, 7, "aggregate = fold of + over per-bloc profiles; by_bloc returns (dict, aggregate)"),
@@ -493,6 +500,7 @@ FAULTS = [
 ]
 PI = "src/votekit/pref_interval.py"
 FAULTS += [
+    ("short PL length capped by the supported candidates", [(BGP, "        super().__init__(**data)\n        self.ballot_length = ballot_length\n", "        super().__init__(**data)\n        self.ballot_length = min(ballot_length, len(self.candidates))\n")], "C14.G6"),
     ("per-bloc lengths hoisted", [(BGP, "            # if there aren't enough non-zero supported candidates,\n            # include 0 support as ties\n            number_to_sample = self.ballot_length\n            number_tied = None\n", ""), (BGP, "        for bloc in self.blocs:\n            # number of voters in this bloc\n            num_ballots = ballots_per_block[bloc]\n            ballot_pool = [Ballot()] * num_ballots\n            non_zero_cands", "        number_to_sample = self.ballot_length\n        number_tied = None\n        for bloc in self.blocs:\n            # number of voters in this bloc\n            num_ballots = ballots_per_block[bloc]\n            ballot_pool = [Ballot()] * num_ballots\n            non_zero_cands")], "C14.G5"),
     ("mcmc helper arguments swapped", [(BGP, "        self, num_ballots, pref_interval, seed_ballot, zero_cands={}, verbose=False\n", "        self, num_ballots, pref_interval, seed_ballot, verbose=False, zero_cands={}\n"), (BGP, "                seed_ballot,\n                zero_cands=zero_cands,\n                verbose=verbose,\n            )", "                seed_ballot,\n                zero_cands,\n                verbose,\n            )")], "C14.G5"),
     ("zero cands accumulated across blocs", [(BGP, "        pref_profile_by_bloc = {}\n\n        for i, bloc in enumerate(self.blocs):\n            # number of voters in this bloc\n            num_ballots = ballots_per_block[bloc]\n            ballot_pool = [Ballot()] * num_ballots\n            pref_intervals = self.pref_intervals_by_bloc[bloc]\n            zero_cands = set(\n                it.chain(*[pi.zero_cands for pi in pref_intervals.values()])\n            )\n\n            slate_to_non_zero_candidates",
